@@ -1798,7 +1798,29 @@ func (m *repoManager) makeMaster(newMasterUUID dvid.UUID, oldMasterBranchName st
 		newMasterNode = childNode
 	}
 
+	// The renames change which version is the head of the branches involved.
+	m.resetBranchHeads(r)
+
 	return r.save()
+}
+
+// resetBranchHeads recomputes the tracked branch heads of a repo from its DAG, the way
+// they are computed when the repo is loaded.  The caller holds the repo lock.
+func (m *repoManager) resetBranchHeads(r *repoT) {
+	prefix := string(r.uuid)
+	m.branchMutex.Lock()
+	for desc := range m.branchToUUID {
+		if strings.HasPrefix(desc, prefix) {
+			delete(m.branchToUUID, desc)
+		}
+	}
+	for branch, headUUID := range r.branchHeads() {
+		if branch == "" {
+			branch = "master"
+		}
+		m.branchToUUID[prefix+branch] = headUUID
+	}
+	m.branchMutex.Unlock()
 }
 
 // newVersion creates a new version as a child of the given parent.  If the
